@@ -128,9 +128,13 @@ func genWord(r *Rng) string {
 // genItem draws an item.  level 0: unique plain strings/ints; 1: plus bool,
 // nil and rich texts; 2: plus the SimItem family with disagreeing sizes.
 func genItem(r *Rng, n int, level int) Item {
-	if level == 0 {
+	if level <= 0 {
 		if r.Chance(1, 4) {
 			return Item{K: "i", N: 1000 + n}
+		}
+		if level < 0 && r.Chance(1, 10) {
+			// blank cells: nil and the empty string (a table may treat them specially)
+			return []Item{{K: "n"}, {K: "s", S: ""}}[r.Intn(2)]
 		}
 		return Item{K: "s", S: genText(r, n, false)}
 	}
